@@ -13,6 +13,7 @@ mod rec_json;
 mod rec_chordal;
 mod rec_consist;
 mod rec_kkt;
+mod rec_conestep;
 mod replay_qdldl;
 mod replay_presolve;
 mod replay_update;
@@ -156,6 +157,12 @@ fn main() {
             let v = load_case(&args);
             let p: problem::Problem = serde_json::from_value(v["problem"].clone()).unwrap();
             write_lines(&args.get("out", "kkt.ndjson"), &[rec_kkt::state_event_hist(v["run"].as_u64().unwrap_or(0) as usize, &p, v["k"].as_u64().unwrap_or(3) as u32, v["first"].as_u64().map(|x| x as u32))]);
+        }
+        "conestep" => {
+            let (lines, meta) = rec_conestep::record(args.num("seed", 1), args.get("tier", "quick") == "thorough");
+            write_lines(&args.get("out", "conestep.ndjson"), &lines);
+            std::fs::write(args.get("meta", "meta.json"), meta.to_string()).unwrap();
+            println!("{}", meta);
         }
         "csc" => {
             let (lines, meta) = rec_csc::record(args.num("seed", 1), args.get("tier", "quick") == "thorough");
